@@ -466,21 +466,28 @@ class NDNApp:
         :type name: :any:`NonStrictName`
         """
         name = Name.normalize(name)
-        del self._prefix_tree[name]
         try:
-            _, _, reply = await self.express_interest(
-                make_command('rib', 'unregister', self.face, name=name), lifetime=1000)
-            ret = parse_response(reply)
-            if ret['status_code'] != 200:
-                self.logger.error('Unregistration for %s failed: %s %s',
-                                  Name.to_str(name), ret["status_code"], ret["status_text"])
+            del self._prefix_tree[name]
+        except KeyError:
+            # The prefix was registered without a callback function
+            pass
+
+        # Commands are sent one at a time, see register()
+        async with self._prefix_register_semaphore:
+            try:
+                _, _, reply = await self.express_interest(
+                    make_command('rib', 'unregister', self.face, name=name), lifetime=1000)
+                ret = parse_response(reply)
+                if ret['status_code'] != 200:
+                    self.logger.error('Unregistration for %s failed: %s %s',
+                                      Name.to_str(name), ret["status_code"], ret["status_text"])
+                    return False
+                return True
+            except (InterestNack, InterestTimeout, InterestCanceled, ValidationFailure):
                 return False
-            return True
-        except (InterestNack, InterestTimeout, InterestCanceled, ValidationFailure):
-            return False
-        except (DecodeError, TypeError, ValueError, IndexError, struct.error):
-            self.logger.error('Unregistration for %s failed: malformed response', Name.to_str(name))
-            return False
+            except (DecodeError, TypeError, ValueError, IndexError, struct.error):
+                self.logger.error('Unregistration for %s failed: malformed response', Name.to_str(name))
+                return False
 
     def set_interest_filter(self, name: NonStrictName, func: Route,
                             validator: Validator | None = None, need_raw_packet: bool = False,
